@@ -17,6 +17,8 @@ def extract(od):
     cases = {}
     sites = []
     for f in sorted(glob.glob(os.path.join(od, "*.cpp"))):
+        if os.path.basename(f).startswith(("py", "lua")):
+            continue          # (the C API only: the Python extension keeps its own release table)
         txt = open(f, errors="replace").read()
         lines = txt.split("\n")
         # ---- the destructor switch
@@ -43,15 +45,17 @@ def extract(od):
             l = lines[i]
             # join continuation lines of one statement
             st = l.strip()
-            while st and not st.endswith((";", "{", "}", ":")) and not st.startswith(("//", "#")) and i + 1 < len(lines):
+            while st and l[:1] in (" ", "\t") and not st.endswith((";", "{", "}", ":")) and not st.startswith(("//", "#", "/*", "*")) and i + 1 < len(lines):
                 i += 1
                 st += " " + lines[i].strip()
             i += 1
-            m = re.match(r"^[\w:<>\*& ]+?\b(\w+)\s*\([^;]*\)\s*$", l)
-            if m and not l.startswith((" ", "\t", "}")):
-                func = m.group(1)
-                locals_, addr_of = {}, {}
-                continue
+            # a function definition starts at column one (its signature may continue on the following lines)
+            if l and l[0] not in " \t}{/#*" and "(" in l and not l.startswith(("static const", "extern", "typedef", "using", "namespace")):
+                m = re.search(r"(\w+)\s*\(", l)
+                if m:
+                    func = m.group(1)
+                    locals_, addr_of = {}, {}
+                    continue
             m = re.match(r"^(?:const\s+)?([\w:<>, ]+?)\s*\*\s*(?:const\s+)?(\w+)\s*=\s*(.*);$", st)
             if m and "->" not in m.group(1):
                 rhs = m.group(3).strip()
